@@ -113,6 +113,11 @@ def factory(kind, spec):
         od = str(E.make_loc([nb], spec["strand"], Parent(id="chr", sequence=Sequence(
             R, Alphabet.NT_EXTENDED_GAPPED, id="chr"))).extract_sequence()) if nb[0] < nb[1] else ""
         ops["other"] = Sequence(od, Alphabet.NT_EXTENDED_GAPPED, parent=Parent(id="chr", location=oloc))
+        # chunks that must NOT be concatenable: overlapping the receiver, and the receiver's own location again
+        ob = [max(0, b[0] - 1), min(len(R), b[0] + 2)] if spec["strand"] == "-" else [max(0, b[1] - 2), min(len(R), b[1] + 1)]
+        ops["other_overlap"] = Sequence("A" * (ob[1] - ob[0]), Alphabet.NT_EXTENDED_GAPPED,
+                                        parent=Parent(id="chr", location=E.make_loc([ob], spec["strand"])))
+        ops["other_same"] = Sequence(data, Alphabet.NT_EXTENDED_GAPPED, parent=Parent(id="chr", location=loc))
         return obj, ops
     tx = mk_tx(spec["blocks"], spec["strand"], spec["cds"], None, frames=spec["frames"], parent=par,
                transcript_id="tx1", transcript_symbol="sym", sequence_name="chr", qualifiers={k: list(v) for k, v in quals.items()},
